@@ -75,6 +75,7 @@ structure RootReport where
   unbalanced : List Str
   heldAtEnd : List Str
   chanUnderLock : List (Str × List Str)
+  userUnderLock : List (Str × List Str)
 deriving DecidableEq, Repr
 
 def script (e : Env) (r : String) : List ETok :=
@@ -85,28 +86,40 @@ def script (e : Env) (r : String) : List ETok :=
 def reportOf (e : Env) (r : String) : RootReport :=
   let sc := scan conds (script e r)
   { root := s r, reentry := sc.reentry, waits := sc.waits, edges := sc.edges, unresolved := sc.unresolved,
-    unbalanced := sc.unbalanced, heldAtEnd := sc.held, chanUnderLock := sc.chanUnderLock }
+    unbalanced := sc.unbalanced, heldAtEnd := sc.held, chanUnderLock := sc.chanUnderLock,
+    userUnderLock := sc.userUnderLock }
 
 def report : List RootReport := roots.map (reportOf env)
 
 def clean (r : String) (edges : List (String × String)) (unresolved : List String := [])
-    (chanUnderLock : List (String × List String) := []) : RootReport :=
+    (chanUnderLock : List (String × List String) := []) (userUnderLock : List (String × List String) := []) : RootReport :=
   { root := s r, reentry := [], waits := [], edges := edges.map (fun p => (s p.1, s p.2)),
     unresolved := unresolved.map s, unbalanced := [], heldAtEnd := [],
-    chanUnderLock := chanUnderLock.map (fun p => (s p.1, p.2.map s)) }
+    chanUnderLock := chanUnderLock.map (fun p => (s p.1, p.2.map s)),
+    userUnderLock := userUnderLock.map (fun p => (s p.1, p.2.map s)) }
 
 /-- The report the protocol model was written against: no re-entry, no wait under a foreign lock, nothing held at
 the end, and exactly these lock-order edges. -/
 def expectedReport : List RootReport :=
   [clean "Start" [], 
+   -- the subscriber callbacks of the pending counter (user code; the groups' aggregation) run under the counter's two
+   -- mutexes and, on the Submit path, under the pool's read lock: a subscriber must not call back into the pool
    clean "Submit" [("w.mutex", "w.PendingTasksCounter.valueMutex"),
                    ("w.PendingTasksCounter.valueMutex", "w.PendingTasksCounter.subscribersMutex"),
-                   ("w.mutex", "w.PendingTasksCounter.subscribersMutex")],
+                   ("w.mutex", "w.PendingTasksCounter.subscribersMutex")]
+     ["w.PendingTasksCounter.subscribers.ForEach"] []
+     [("w.PendingTasksCounter.subscribers.ForEach",
+       ["w.PendingTasksCounter.subscribersMutex", "w.PendingTasksCounter.valueMutex", "w.mutex"])],
    -- the one blocking channel operation under a lock: `stop` sends the shutdown signals under the pool's write lock (the
    -- channel's capacity is the worker count; the protocol model has this send as a step of its own that can block)
    clean "Shutdown" [] [] [("send w.shutdownSignal", ["w.mutex"])], clean "IsRunning" [], clean "WorkerCount" [],
    clean "dispatcher" [("w.Queue.mutex", "w.mutex"), ("w.Queue.mutex", "w.PendingTasksCounter.valueMutex")],
-   clean "worker" [("w.PendingTasksCounter.valueMutex", "w.PendingTasksCounter.subscribersMutex")] ["t.workerFunc"]]
+   -- `workerFunc` (the task: user code that may call Submit, IsRunning, … itself) is NOT in `userUnderLock`: it runs with
+   -- no lock of the pool held
+   clean "worker" [("w.PendingTasksCounter.valueMutex", "w.PendingTasksCounter.subscribersMutex")]
+     ["element.workerFunc", "w.PendingTasksCounter.subscribers.ForEach", "task.workerFunc"] []
+     [("w.PendingTasksCounter.subscribers.ForEach",
+       ["w.PendingTasksCounter.subscribersMutex", "w.PendingTasksCounter.valueMutex"])]]
 
 /-- **Regenerated obligation.**  The lock scripts derived from the working tree's skeletons give exactly the expected
 report.  (One kernel evaluation for all roots.) -/
@@ -136,6 +149,14 @@ theorem C16_lockscript_no_wait_under_lock :
       ∀ l ∈ heldAfter conds pre, some l = condMutex conds x := by
   intro r hr
   exact scan_no_wait_sound conds (script env r) (expected_clean _ (report_mem r hr)).2.1
+
+/-- **Tasks run with no lock of the pool held**: the only calls into user code that any entry point makes while holding
+a lock are the subscriber callbacks of the pending counter; `workerFunc` is called with nothing held — which is what
+allows "tasks that submit tasks" (and tasks that call `IsRunning`, `Shutdown`, `Start`). -/
+theorem C16_lockscript_tasks_run_unlocked :
+    ∀ x ∈ report, ∀ u ∈ x.userUnderLock, u.1 = s "w.PendingTasksCounter.subscribers.ForEach" := by
+  rw [C16_lockscript_report]
+  decide +kernel
 
 /-- **Every entry point returns with nothing held and never unlocks what it does not hold.** -/
 theorem C16_lockscript_balanced :
